@@ -6,6 +6,7 @@ func init() {
 		Technique:   "finite-case evaluation of the window/stepper time guards over all orderings, affine symbolic evaluation of window and query bounds (offset/range coefficients), enum-chain extraction of range operations",
 		Explanation: "Decides the structural clauses of range aggregation for all sample sets and grids: window admission/eviction tables closed at both ends and agreeing with each other, look-ahead ordering, window = [T-o-r, T-o] stamped T, fetch bounds [start-o-r, end-o] with the grid unshifted, stepper bound, operation -> (sample extractor, aggregator) table, rate divisor, emptiness guards, unlimited sampling.",
 		Decided: []string{
+			"PV-ONCE: rangeAggIterator.Next advances the grid by exactly one point per call; PV-RESET: a reported step has its samples written",
 			"FE-ORD: fillWindow admits iff ws <= ts <= we, buffers iff ts > we; clearWindow retains iff t >= ws; the two agree at the lower edge; stepper stops iff current > end; literal matrix bound",
 			"PV-ORDER: eviction before admission; buffered sample re-examined before a new read",
 			"AF: window [T-offset-range, T-offset], stamp T; fetch [start-offset-range, end-offset]; grid (start, end, step)",
